@@ -65,6 +65,8 @@ HARNESSES = {
     "atomic4":   dict(pipe="det", mode="product", a=[1, 2, 3, 4], steps=1, seed=None, hooks=False),
     "atomicn3":  dict(pipe="noisy", mode="product", a=[100, 200, 300], steps=1, seed=5, hooks=False, rnghook=False),
     "atomicf3":  dict(pipe="det", mode="product", a=[1, 2, 3], steps=1, seed=None, hooks=False, outputs=True),
+    "files2x3":  dict(pipe="det", mode="product", a=[1, 2], b=[10, 20, 30], steps=1, seed=None, hooks=False, outputs=True),
+    "files3x2":  dict(pipe="det", mode="product", a=[1, 2, 3], b=[10, 20], steps=1, seed=None, hooks=False, outputs=True),
 }
 
 
@@ -287,11 +289,12 @@ def plan(tier):
     if tier == "quick":
         return [("det3", 2, 1), ("det2x2", 2, 1), ("state3", 2, 1), ("seq", 2, 1), ("custom3", 2, 1),
                 ("noisy3", 2, 1), ("noisy2", 2, 2), ("mseed3", 2, 1), ("files3", 2, 1),
-                ("atomic4", 4, 0), ("atomicn3", 3, 0), ("atomicf3", 3, 0), ("det3", 1, 0), ("det3", 3, 1)]
+                ("atomic4", 4, 0), ("atomicn3", 3, 0), ("atomicf3", 3, 0), ("det3", 1, 0), ("det3", 3, 1),
+                ("files2x3", 2, 0), ("files3x2", 3, 0)]
     return [("det3", 2, 2), ("det2x2", 2, 2), ("det3s2", 2, 2), ("state3", 2, 2), ("seq", 2, 2), ("custom3", 2, 2),
             ("noisy3", 2, 2), ("noisy2", 2, 3), ("mseed3", 2, 2), ("files3", 2, 2), ("det3", 3, 2), ("noisy3", 3, 2),
             ("atomic4", 4, 0), ("atomic4", 2, 0), ("atomicn3", 3, 0), ("atomicf3", 3, 0), ("det3", 1, 0),
-            ("noisy3", 1, 0)]
+            ("noisy3", 1, 0), ("files2x3", 2, 0), ("files3x2", 3, 0), ("files2x3", 6, 0)]
 
 
 def shards(tier, seed):
@@ -522,29 +525,59 @@ def _patch_island_pool(order):
     orig = ad.ThreadPoolExecutor
 
     class OrderedPool:
+        """Real threads, but the k-th submitted call may only *run* when all calls placed before it in `order` have
+        completed: the completion order of the pool is exactly `order` (a legal schedule of a thread pool)."""
+
         def __init__(self, max_workers=None):
-            pass
+            import threading
+
+            self._n = 0
+            self._done = {}
+            self._cv = threading.Condition()
+            self._threads = []
 
         def __enter__(self):
             return self
 
         def __exit__(self, *a):
+            for t in self._threads:
+                t.join()
             return False
 
-        def map(self, fn, *iterables):
-            calls = list(zip(*iterables))
-            results = [None] * len(calls)
-            for idx in order:
-                if idx < len(calls):
-                    results[idx] = fn(*calls[idx])
-            return iter(results)
-
         def submit(self, fn, *a, **k):
+            import threading
             from concurrent.futures import Future
 
-            f = Future()
-            f.set_result(fn(*a, **k))
-            return f
+            idx = self._n
+            self._n += 1
+            fut = Future()
+            rank = order.index(idx) if idx in order else len(order) + idx
+            before = [j for j in order[:rank]] if idx in order else list(order)
+
+            def body():
+                with self._cv:
+                    self._cv.wait_for(lambda: all(j in self._done for j in before), timeout=120)
+                try:
+                    fut.set_result(fn(*a, **k))
+                except BaseException as e:  # noqa: BLE001
+                    fut.set_exception(e)
+                with self._cv:
+                    self._done[idx] = True
+                    self._cv.notify_all()
+
+            t = threading.Thread(target=body, daemon=True)
+            self._threads.append(t)
+            t.start()
+            return fut
+
+        def map(self, fn, *iterables):
+            futs = [self.submit(fn, *args) for args in zip(*iterables)]
+
+            def gen():
+                for f in futs:
+                    yield f.result()
+
+            return gen()
 
     ad.ThreadPoolExecutor = OrderedPool
 
